@@ -45,6 +45,8 @@ type lnInvoice struct {
 	msat     uint64
 	huge     bool
 	expired  bool // created with a validity of 0 seconds
+	// forgedOf: this invoice was made by somebody else with the PAYMENT HASH of that (own) invoice and another amount
+	forgedOf *lnInvoice
 }
 
 type LnCall struct {
@@ -108,6 +110,32 @@ func (l *ScriptedLN) makeInvoice(msat uint64, external bool) (*lnInvoice, error)
 		amount: msat / 1000, msat: msat, external: external}
 	l.invoices = append(l.invoices, li)
 	l.byHash[li.hash] = li
+	l.byReq[li.request] = li
+	return li, nil
+}
+
+// forgeInvoice: another node's invoice (own key, own amount) carrying the payment hash of `orig`.  Anybody can make one:
+// BOLT11 signs with the payee's node key, which a decoder does not know in advance.
+func (l *ScriptedLN) forgeInvoice(orig *lnInvoice, msat uint64) (*lnInvoice, error) {
+	hb, err := hex.DecodeString(orig.hash)
+	if err != nil || len(hb) != 32 {
+		return nil, errors.New("bad hash")
+	}
+	var ph [32]byte
+	copy(ph[:], hb)
+	inv, err := zpay32.NewInvoice(&chaincfg.SigNetParams, ph, time.Now(), zpay32.Description("forged"), zpay32.Amount(lnwire.MilliSatoshi(msat)))
+	if err != nil {
+		return nil, err
+	}
+	key := secp256k1.PrivKeyFromBytes(l.rng.Bytes(32))
+	req, err := inv.Encode(zpay32.MessageSigner{SignCompact: func(msg []byte) ([]byte, error) {
+		return ecdsa.SignCompact(key, msg, true), nil
+	}})
+	if err != nil {
+		return nil, err
+	}
+	li := &lnInvoice{id: len(l.invoices), request: req, hash: orig.hash, amount: msat / 1000, msat: msat, external: true, forgedOf: orig}
+	l.invoices = append(l.invoices, li)
 	l.byReq[li.request] = li
 	return li, nil
 }
